@@ -123,6 +123,107 @@ def _dispatch(mod, body, target):
     return [(None if t is None else _subst(t, env), [_subst(p, env) for p in pre], _subst(v, env)) for t, pre, v in _chain_return(h.body)]
 
 
+# ---------------------------------------------------------------------------------------------------------------
+# tail calls of new helpers: `return helper(names / constants)` read as the helper's statements
+# ---------------------------------------------------------------------------------------------------------------
+def _always_leaves(stmts):
+    """every path through the statements ends with `return` or `raise` (nothing falls off the end)"""
+    if not stmts:
+        return False
+    s = stmts[-1]
+    if isinstance(s, (ast.Return, ast.Raise)):
+        return True
+    if isinstance(s, ast.If):
+        return _always_leaves(s.body) and _always_leaves(s.orelse)
+    if isinstance(s, ast.Try):
+        return _always_leaves(s.body + s.orelse) and all(_always_leaves(h.body) for h in s.handlers)
+    return False
+
+
+def tail_inlined(mod, fn):
+    """(copy of the FunctionDef `fn`, names of the helpers looked through): every statement `return helper(arguments)` of `fn` that
+    is the last statement of an if / elif / else branch (or of the function), whose callee is a plain module level function that did
+    not exist when this reader was written (py2v.KNOWN_FUNCTIONS) and whose arguments are names or constants, is replaced by the
+    helper's statements, its parameters replaced by the arguments. Returning what the helper returns (or raising what it raises)
+    IS running its statements in place when: every path of the helper ends with return / raise; the arguments are evaluated
+    without side effect (a name, a constant); a parameter the helper assigns to was given a NAME (the caller's variable of that
+    name is then assigned instead - nothing of the caller runs after a tail call); the helper has no nested function, lambda,
+    comprehension scope games (global / nonlocal), yield or decorator. Anything else is left as written (the reader then fails
+    closed as before); a tree without such helpers is returned unchanged."""
+    known = getattr(py2v, "KNOWN_FUNCTIONS", set())
+    helpers = {n.name: n for n in mod.body if isinstance(n, ast.FunctionDef)}
+    used = []
+
+    def body_of(call):
+        if not (isinstance(call, ast.Call) and isinstance(call.func, ast.Name)):
+            return None
+        h = helpers.get(call.func.id)
+        if h is None or h.name in known or h is fn or h.decorator_list:
+            return None
+        a = h.args
+        if a.vararg or a.kwarg or a.posonlyargs:
+            return None
+        params = [p.arg for p in a.args] + [p.arg for p in a.kwonlyargs]
+        defaults = dict(zip([p.arg for p in a.args][len(a.args) - len(a.defaults):], a.defaults))
+        defaults.update({p.arg: d for p, d in zip(a.kwonlyargs, a.kw_defaults) if d is not None})
+        if len(call.args) > len(a.args) or any(isinstance(x, ast.Starred) for x in call.args):
+            return None
+        env = dict(zip([p.arg for p in a.args], call.args))
+        for k in call.keywords:
+            if k.arg is None or k.arg not in params or k.arg in env:
+                return None
+            env[k.arg] = k.value
+        for p in params:
+            if p not in env:
+                if p not in defaults:
+                    return None
+                env[p] = defaults[p]
+        if not all(isinstance(v, (ast.Name, ast.Constant)) for v in env.values()):
+            return None
+        body = _strip_doc(h.body)
+        for n in [m for b in body for m in ast.walk(b)]:
+            if isinstance(n, (ast.Global, ast.Nonlocal, ast.Yield, ast.YieldFrom, ast.Await, ast.FunctionDef, ast.AsyncFunctionDef, ast.Lambda, ast.ClassDef)):
+                return None
+            if isinstance(n, ast.Name) and isinstance(n.ctx, (ast.Store, ast.Del)) and n.id in env and not isinstance(env[n.id], ast.Name):
+                return None
+        if not _always_leaves(body):
+            return None
+        # a local of the helper that is not a parameter must not be read before the helper binds it (it could then see the caller's
+        # variable of the same name): the helper itself would raise UnboundLocalError there, so this cannot change a working tree
+
+        class T(ast.NodeTransformer):
+            def visit_Name(self, n):
+                if n.id in env:
+                    v = env[n.id]
+                    if isinstance(v, ast.Name):
+                        return ast.copy_location(ast.Name(id=v.id, ctx=n.ctx), n)
+                    return copy.deepcopy(v)
+                return n
+        used.append(h.name)
+        return [T().visit(copy.deepcopy(s)) for s in body]
+
+    def block(stmts, tail):
+        out = []
+        for i, s in enumerate(stmts):
+            last = tail and i == len(stmts) - 1
+            if isinstance(s, ast.Return) and last:
+                b = body_of(s.value)
+                if b is not None:
+                    out.extend(block(b, True))
+                    continue
+            if isinstance(s, ast.If) and last:
+                s = copy.copy(s)
+                s.body = block(s.body, True)
+                s.orelse = block(s.orelse, True) if s.orelse else s.orelse
+            out.append(s)
+        return out
+    new = copy.copy(fn)
+    new.body = block(list(fn.body), True)
+    if not used:
+        return fn, []
+    return ast.fix_missing_locations(new), used
+
+
 def gen(repo):
     o = Out("laspy/header.py LasHeader._prefetch_header_data / read_evlrs / read_from (and where the point format is decided), laspy/lib.py open_las, "
             "laspy/lasreader.py LasReader.read / _create_point_source, UncompressedPointReader.read_n_points, "
@@ -234,15 +335,40 @@ def gen(repo):
                  and [_norm(x) for x in tail.body] in (["header.read_evlrs(original_stream)", "stream.seek(header.offset_to_point_data)"],
                                                         ["header.read_evlrs(original_stream)"]),
                  "read_from: `if read_evlrs:` does something else than load the EVLRs (and rewind the local buffer), or is not the last statement before `return header`")
-        stores = [i for i, x in enumerate(body) if isinstance(x, ast.Assign) and [_norm(t) for t in x.targets] == ["header._point_format"]]
-        _require(len(stores) == 1 and _norm(body[stores[0]].value) == "point_format" and stores[0] < len(body) - 2,
+        # a NEW private helper of the class (not among py2v.KNOWN_FUNCTIONS) called as a statement of read_from with `header` given
+        # for its parameter `header` - `cls._resolve_point_format(header, ..)` - is looked through: its statements count as statements
+        # of read_from at the place of the call (what the other arguments are does not matter for what is checked here)
+        known = getattr(py2v, "KNOWN_FUNCTIONS", set())
+        looked = {}
+        for i, x in enumerate(body):
+            c = x.value if isinstance(x, ast.Expr) else None
+            if not (isinstance(c, ast.Call) and isinstance(c.func, ast.Attribute) and _norm(c.func.value) in ("cls", "LasHeader") and c.func.attr not in known):
+                continue
+            hs = [n for n in hcls.body if isinstance(n, ast.FunctionDef) and n.name == c.func.attr]
+            if len(hs) != 1:
+                continue
+            decs = [_norm(d) for d in hs[0].decorator_list]
+            if decs not in (["staticmethod"], ["classmethod"]) or hs[0].args.vararg or hs[0].args.kwarg:
+                continue
+            params = [a.arg for a in hs[0].args.args][1 if decs == ["classmethod"] else 0:]
+            bound = dict(zip(params, [_norm(a) for a in c.args]))
+            bound.update({k.arg: _norm(k.value) for k in c.keywords if k.arg})
+            if bound.get("header") == "header" and not any(isinstance(n, ast.Name) and n.id == "header" and isinstance(n.ctx, ast.Store) for n in ast.walk(hs[0])):
+                looked[i] = hs[0]
+        scope = [f] + list(looked.values())
+        stores = [i for i, x in enumerate(body) if isinstance(x, ast.Assign) and [_norm(t) for t in x.targets] == ["header._point_format"]
+                  and _norm(x.value) == "point_format"]
+        stores += [i for i, h in looked.items() for x in _strip_doc(h.body)
+                   if isinstance(x, ast.Assign) and [_norm(t) for t in x.targets] == ["header._point_format"] and _norm(x.value) == "point_format"]
+        _require(len(stores) == 1 and stores[0] < len(body) - 2,
                  "read_from: `header._point_format = point_format` once, before the EVLRs are loaded")
-        all_stores = [n for n in ast.walk(f) if isinstance(n, ast.Attribute) and n.attr in ("_point_format", "point_format") and isinstance(n.ctx, ast.Store)]
+        all_stores = [n for g in scope for n in ast.walk(g) if isinstance(n, ast.Attribute) and n.attr in ("_point_format", "point_format") and isinstance(n.ctx, ast.Store)]
         _require(len(all_stores) == 1, "read_from stores the point format more than once")
-        _require("header._vlrs.get('ExtraBytesVlr')" in _norm(f), "read_from: the extra dimensions come from the Extra Bytes record of the VLRs")
-        for n in ast.walk(f):
-            if isinstance(n, ast.Attribute) and n.attr in ("evlrs", "_evlrs"):
-                raise Untranslatable(f"read_from looks at the EVLRs: {_norm(n)}")
+        _require(any("header._vlrs.get('ExtraBytesVlr')" in _norm(g) for g in scope), "read_from: the extra dimensions come from the Extra Bytes record of the VLRs")
+        for g in scope:
+            for n in ast.walk(g):
+                if isinstance(n, ast.Attribute) and n.attr in ("evlrs", "_evlrs"):
+                    raise Untranslatable(f"read_from looks at the EVLRs: {_norm(n)}")
         rmod = parse(repo, "laspy/lasreader.py")
         rcls = find_class(rmod, "LasReader")
         mcls = find_class(parse(repo, "laspy/lasmmap.py"), "LasMMAP")
@@ -345,7 +471,7 @@ def gen(repo):
 
     def open_las():
         lmod = parse(repo, "laspy/lib.py")
-        f = find_func(lmod, "open_las")
+        f, _ = tail_inlined(lmod, find_func(lmod, "open_las"))      # `return _open_for_reading(source, closefd, ..)`: that helper's statements
         top = [s for s in f.body if isinstance(s, ast.If)]
         _require(len(top) == 1 and _norm(top[0].test) == "mode == 'r'", "open_las: mode == 'r' branch first")
         disp = _dispatch(lmod, [s for s in top[0].body if not isinstance(s, ast.Try)], "stream")
@@ -389,7 +515,7 @@ def gen(repo):
         """what read_evlrs is when the caller does not say: the same constant for every kind of source, by laspy.open,
         by laspy.read and by LasReader(...)"""
         lmod = parse(repo, "laspy/lib.py")
-        f = find_func(lmod, "open_las")
+        f, _ = tail_inlined(lmod, find_func(lmod, "open_las"))
         d_open = _default_of(f, "read_evlrs")
         _never_rebound(f, "read_evlrs")
         rd = find_func(find_class(parse(repo, "laspy/lasreader.py"), "LasReader"), "__init__")
@@ -508,6 +634,46 @@ def gen(repo):
         _require([_norm(s) for s in find_func(e, "source", decorator="property").body] == ["return self._source"], "EmptyPointReader.source")
         return "Definition gen_point_readers_shape : bool := true.\n"
     o.add("point_readers", point_readers)
+
+    def reader_vlrs():
+        """a LasReader leaves the VLRs of an UNCOMPRESSED file as LasHeader.read_from read them: in the class LasReader every mention of the
+        header's VLR list (`...header.vlrs` / `...header._vlrs`) is in `_create_laz_backend` (reached from `_create_point_source` under
+        `if self.header.are_points_compressed:` only) or inside the body of an `if` whose test is a conjunction with the conjunct
+        `self.header.are_points_compressed`; and no other method of the header that could drop records is called"""
+        rmod = parse(repo, "laspy/lasreader.py")
+        cls = find_class(rmod, "LasReader")
+        guard = "self.header.are_points_compressed"
+
+        def guarded_nodes(fn):
+            ok = set()
+            for n in ast.walk(fn):
+                if isinstance(n, ast.If):
+                    t = n.test
+                    conj = [_norm(v) for v in t.values] if isinstance(t, ast.BoolOp) and isinstance(t.op, ast.And) else [_norm(t)]
+                    if guard in conj:
+                        for b in n.body:
+                            ok.update(id(m) for m in ast.walk(b))
+            return ok
+        for fn in [n for n in cls.body if isinstance(n, (ast.FunctionDef, ast.AsyncFunctionDef))]:
+            ok = guarded_nodes(fn)
+            for n in ast.walk(fn):
+                if isinstance(n, ast.Attribute) and n.attr in ("vlrs", "_vlrs") and "header" in _norm(n.value):
+                    _require(fn.name == "_create_laz_backend" or id(n) in ok,
+                             f"LasReader.{fn.name} touches the VLRs of the header outside `if {guard} and ..`: {_norm(n)}")
+                if isinstance(n, ast.Call) and isinstance(n.func, ast.Attribute) and _norm(n.func.value) in ("self.header", "header") \
+                        and n.func.attr not in ("read_evlrs",):
+                    raise Untranslatable(f"LasReader.{fn.name} calls a method of the header: {_norm(n.func)}")
+        cps = find_func(cls, "_create_point_source")
+        calls = [n for n in ast.walk(cps) if isinstance(n, ast.Call) and _norm(n.func) == "self._create_laz_backend"]
+        ok = guarded_nodes(cps)
+        _require(calls and all(id(c) in ok for c in calls), f"_create_laz_backend is called outside `if {guard}:`")
+        others = [fn.name for fn in cls.body if isinstance(fn, ast.FunctionDef) and fn.name != "_create_point_source"
+                  for n in ast.walk(fn) if isinstance(n, ast.Attribute) and n.attr == "_create_laz_backend"]
+        _require(not others, f"_create_laz_backend is used by {others}")
+        return ("(* LasReader touches the VLR list of the header only for files whose points are compressed (the laszip record is hidden);\n"
+                "   the VLRs of an uncompressed file are what LasHeader.read_from read, with or without points *)\n"
+                "Definition gen_reader_keeps_vlrs_uncompressed : bool := true.\n")
+    o.add("reader_vlrs", reader_vlrs)
 
     def lasmmap():
         mmod = parse(repo, "laspy/lasmmap.py")
